@@ -1,6 +1,8 @@
 """C05 -- scales (mingus/core/scales.py)."""
 from __future__ import annotations
 
+import ast
+
 from ..engine.absval import Lin, Sym, Ch, Run, AbsStr, Rep, Sel, Opaque, AObj, AIter, RepList, AClass, INF
 from ..engine.absint import CannotDecide, Interp, explore, RaiseEx
 from ..engine.loader import AnalysisError, short
@@ -230,6 +232,41 @@ def rule_patterns(ctx, mod, model):
         need = {"ascending"} if mname == "__len__" else {"ascending", "descending"}
         ctx.check(need <= called, "R-C05-A", "_Scale.%s" % mname, fi.where(), "_Scale.%s" % mname,
                   "%s no longer consults %s" % (mname, sorted(need - called)))
+    # ... and semantically: equality / length of concrete pairs must be the equality / length of their note lists
+    def build(it, spec):
+        cname, args = spec
+        return it.call(AClass(mod.cls(cname)), list(args), {}, None)
+    pairs = [
+        ("same scale, two objects", ("Major", ["C"]), ("Major", ["C"])),
+        ("one vs two octaves", ("Major", ["C"]), ("Major", ["C", 2])),
+        ("two vs two octaves", ("NaturalMinor", ["A", 2]), ("NaturalMinor", ["A", 2])),
+        ("different semitone positions", ("Diatonic", ["C", (3, 7)]), ("Diatonic", ["C", (2, 6)])),
+        ("same semitone positions", ("Diatonic", ["C", (3, 7)]), ("Diatonic", ["C", (3, 7)])),
+        ("same class, other tonic", ("Dorian", ["D"]), ("Dorian", ["E"])),
+        ("Ionian vs Major (same lists)", ("Ionian", ["C"]), ("Major", ["C"])),
+        ("relative major / minor", ("Major", ["C"]), ("NaturalMinor", ["A"])),
+        ("melodic vs natural minor (same descent)", ("MelodicMinor", ["A"]), ("NaturalMinor", ["A"])),
+        ("chromatic in relative keys", ("Chromatic", ["C"]), ("Chromatic", ["a"])),
+    ]
+    for label, sa, sb in pairs:
+        def go(it, sa=sa, sb=sb):
+            x, y = build(it, sa), build(it, sb)
+            lists = [it.call_method(o, m, [], {}, None) for o in (x, y) for m in ("ascending", "descending")]
+            lists = [l.items if isinstance(l, AIter) else l for l in lists]
+            return (it.compare(ast.Eq, x, y), it.compare(ast.NotEq, x, y), it.call_builtin("len", [x], {}), lists)
+        try:
+            ps = explore(lambda ch: Interp(ctx.repo, ch), go)
+        except CannotDecide as e:
+            raise AnalysisError("scale equality (%s): %s" % (label, e))
+        ok, why = len(ps) == 1 and ps[0].kind == "return", "outcome %s" % [(p.kind, short(repr(p.value), 80)) for p in ps][:2]
+        if ok:
+            eq, ne, ln, (xa, xd, ya, yd) = ps[0].value
+            want = (xa == ya and xd == yd)
+            if eq is not want or ne is not (not want):
+                ok, why = False, "== gives %r and != gives %r although the note lists are %s" % (eq, ne, "equal" if want else "different")
+            elif ln != len(xa):
+                ok, why = False, "len() gives %r, the ascending list has %d notes" % (ln, len(xa))
+        ctx.check(ok, "R-C05-A", "_Scale.eq[%s]" % label, base.methods["__eq__"].where(), "%s(%s) == %s(%s)" % (sa[0], sa[1], sb[0], sb[1]), why)
 
 
 def rule_degree(ctx, mod, model):
